@@ -28,8 +28,26 @@ pub open spec fn wf(d: DfaCore) -> bool {
     &&& forall|t: TerminalID| #[trigger] d.lookaheads@.contains_key(t) ==> wf_flat(core(*d.lookaheads@[t].nfa)) && d.lookaheads@[t].nfa.lookaheads@.len() == 0
 }
 
-/// the class predicate closure is a total, deterministic function
-pub open spec fn cls_functional<F: Fn(CharClassID, char) -> bool>(f: &F) -> bool {
-    &&& forall|cc: CharClassID, c: char| call_requires(f, (cc, c))
-    &&& forall|cc: CharClassID, c: char| !(#[trigger] call_ensures(f, (cc, c), true) && call_ensures(f, (cc, c), false))
+/// the class predicate may be called with class id `cc` (for every character) and is deterministic there
+pub open spec fn cls_functional_on<F: Fn(CharClassID, char) -> bool>(f: &F, cc: CharClassID) -> bool {
+    &&& forall|c: char| call_requires(f, (cc, c))
+    &&& forall|c: char| !(#[trigger] call_ensures(f, (cc, c), true) && call_ensures(f, (cc, c), false))
+}
+
+/// ... for every class id on a transition of the automaton
+pub open spec fn cls_covers_flat<F: Fn(CharClassID, char) -> bool>(f: &F, d: DfaCore) -> bool {
+    forall|s: int, i: int| 0 <= s < d.states@.len() && 0 <= i < d.states@[s].transitions@.len()
+        ==> cls_functional_on(f, (#[trigger] d.states@[s].transitions@[i]).0)
+}
+
+/// the class predicate closure is a deterministic function that may be called with every class id the automaton and its lookahead automata
+/// refer to (the predicate a scanner is built with indexes a table WITHOUT bounds check: only registered ids may be handed to it)
+pub open spec fn cls_functional<F: Fn(CharClassID, char) -> bool>(f: &F, d: DfaCore) -> bool {
+    &&& cls_covers_flat(f, d)
+    &&& forall|t: TerminalID| #[trigger] d.lookaheads@.contains_key(t) ==> cls_covers_flat(f, core(*d.lookaheads@[t].nfa))
+}
+
+/// the class relation the contracts are stated over: what the closure answers `true` to
+pub open spec fn cls_of<F: Fn(CharClassID, char) -> bool>(f: &F) -> Cls {
+    |cc: CharClassID, c: char| call_ensures(f, (cc, c), true)
 }
